@@ -28,6 +28,7 @@ def run(ctx):
         ctx.count('corpus')
         replay(ctx, rec)
     batch = []
+    full = S.FullTie(ctx, max_cases=ctx.n(160, 2000))      # per library
     for name, lib in libs_:
         kind = 'gas' if name in ('BensonGA', 'PPY') else 'surface'
         pool = list(G.MIX_GAS if kind == 'gas' else G.MIX_SURFACE)
@@ -43,10 +44,12 @@ def run(ctx):
         for a, b in pairs[:ctx.n(260, 4000)]:
             if ctx.time_left() < 60:
                 break
-            check_pair(ctx, name, lib, [a, b], [res[a], res[b]], batch)
+            check_pair(ctx, name, lib, [a, b], [res[a], res[b]], batch, full)
         for _ in range(ctx.n(10, 200)):
             t = [rng.choice(pool) for _ in range(3)]
-            check_pair(ctx, name, lib, t, [res[x] for x in t], batch)
+            check_pair(ctx, name, lib, t, [res[x] for x in t], batch, full)
+        full.run()
+    full.run()
     replies = ctx.model([b[0] for b in batch])
     if replies is not None:
         for (req, impl, where), rep in zip(batch, replies):
@@ -60,9 +63,13 @@ def run(ctx):
                 ctx.disagree('corr:c02.descriptors', where, impl['ok'], {k: float(v) for k, v in model.items()})
 
 
-def check_pair(ctx, name, lib, parts, results, batch):
+def check_pair(ctx, name, lib, parts, results, batch, full=None):
     mix = '.'.join(parts)
     r = S.impl_descriptors(lib, mix)
+    if full is not None and not r.get('err', '').startswith('internal'):
+        # second tie: the end-to-end model on the mixture's raw graph
+        full.add(lib, mix, r, {'scheme': name, 'smiles': mix}, S.impl_atoms(lib) if 'ok' in r else None,
+                 S.hook_graph(lib) if 'ok' in r else None)
     heavy = [sum(1 for a in Chem.MolFromSmiles(p).GetAtoms()) for p in parts]
     fails = any('err' in x for x in results)
     ctx.case((name, mix) if (min(heavy) >= 2 or fails) else None, {'scheme': name, 'mixture': mix})
